@@ -4,7 +4,7 @@ CFG = {
     "bin": "c09",
     "technique": "Lean 4 proof (regex derivative matcher = regex semantics; generated regexes = spec languages for all strings; "
                  "decimal numerals by strong induction) + regexes regenerated from the source by fancy_regex's own parser + "
-                 "differential correspondence on three paths (parse, TOML deserialisation, literal macros)",
+                 "differential correspondence on six paths (parse, deserialisation of a TOML value / an escaped TOML value / a JSON string / a TOML table key, literal macros)",
     "level_text": "Theorems (all strings, no length bound; all numbers): each of the four regexes found in libcnb-data "
                   "(Gen.Regexes, regenerated every run) accepts exactly the spec language (layer name / process type / buildpack id / "
                   "exec.d key: character rules and reserved words); an accepted value displays and serialises as the input; "
@@ -22,9 +22,18 @@ CFG = {
     "search_tier": "quick",
     "search_rounds": 1,
     "exhaustive": True,
-    "rule": "fields = kind, input string (hex code points), extra. Long strings: valid identifiers of 63..66, 127..130, 255..258, 511..514, 1023..1026, 2047..2050 bytes (also multi-byte layer names) and the same with one invalid character at the start/middle/end; digit strings of 19..21, 39..40, 255..257 digits in versions/API versions. Exhaustive: every string of length <= 3 over the 14-symbol alphabet "
+    "rule": "fields = kind, input string (hex code points), extra. Entry paths of every single-string case (observation p;t;u;j;k): p = str::parse / TryFrom<String>, t = "
+            "toml::from_str of a one-field struct in the toml crate's spelling, u = the same with every character written as a \\u escape, j = serde_json::from_str of a JSON string, "
+            "k = the string as a TOML table key read through the type's Deserialize; all five must give what the grammar demands. Case variants: every ASCII-case variant (2^n; words "
+            "over 10 letters sampled) of each of the six reserved words and of every alphanumeric word of the regex sources, alone and with every one-character prefix and suffix over the "
+            "alphabet, on all four identifier kinds (~25 000 cases; thorough also through the four literal macros: alone and with the prefixes / suffixes a Z 0 . - _ / space). Look-alikes: "
+            "reserved words (both cases) with one letter replaced by a look-alike / case-folding / compatibility character (long s, dotless and dotted i, Kelvin sign, Cyrillic, Greek, "
+            "Armenian, fullwidth, ordinal indicators), the word in fullwidth, a combining acute after every position; reserved words and 8 ordinary values decorated before / after / "
+            "both / inside with 36 strings (BOM, ZWSP, ZWJ, NBSP, NEL, LS, PS, RLO, combining marks, VS16, CR, CRLF, LF, TAB, space, NUL, DEL, ESC, `.`, `..`, `%`, `%20`, `+`, fullwidth / Unicode "
+            "dots, hyphens, minus, low line, slashes, fullwidth / Arabic-Indic / mathematical / superscript / circled digits); versions 1.2.3, 0.0.0, 10.20.30, 2^64-1.0.1 and API versions "
+            "0.10, 1, 0, 10.0, 0.2^64-1 decorated the same way and with v V = - _ 0 00 e E1 x 0x -rc1 +build and an Arabic-Indic digit before / after every component. Long strings: valid identifiers of 63..66, 127..130, 255..258, 511..514, 1023..1026, 2047..2050 bytes (also multi-byte layer names) and the same with one invalid character at the start/middle/end; digit strings of 19..21, 39..40, 255..257 digits in versions/API versions. Exhaustive: every string of length <= 3 over the 14-symbol alphabet "
             "{a Z 0 1 9 . _ - / + space LF e-acute NUL} for each of the 6 kinds (layer, process, bpid, execd, version, api), two paths each "
-            "(parse/TryFrom, toml::from_str of a one-field struct) with Display, Serialize and re-parse of the Display in the observation; "
+            "(the five entry paths) with Display, Serialize and re-parse of the Display in the observation; "
             "thorough adds every string of length 3..5 over the same alphabet (bulk cases: one per 3-character prefix, 211 strings each, "
             "classified 0/1/2) and the literal macros (layer_name!, process_type!, buildpack_id!, exec_d_program_output_key!) on all "
             "strings of length <= 3, the reserved-word edits and single code points, compiled by `cargo check --offline "
